@@ -228,11 +228,13 @@ def run(tier, replay):
     for cfg, dev, kind, name in SENS:
         jobs[("sens", cfg, dev)] = pool.submit(tlc_job, "MC_Shutdown.tla", cfg, D, workers=1, timeout=900, work_id="c20s")
     for w in WITNESS:
+        if w == "Never_ReturnedDeepQueue" and not thorough:
+            continue   # 3 clients, about half a million states before the witness is reached
         jobs[("wit", "MC_Shutdown_wit_%s.cfg" % w, w)] = pool.submit(run_tlc, "MC_Shutdown.tla", "MC_Shutdown_wit_%s.cfg" % w, D,
                                                                        workers=1, timeout=600, work_id="c20w")
 
     # ---------------------------------------------------------------- 2. behaviours from TLC, replayed with gates
-    nsim = 400 if thorough else 60
+    nsim = 400 if thorough else 45
     beh, seen = [], set()
     for cfg, sd in (("Gen_Shutdown.cfg", seed), ("Gen_Shutdown_late.cfg", seed + 1000)):
         g = run_tlc("Gen_Shutdown.tla", cfg, D, workers=1, simulate=nsim, depth=80, seed_val=sd, work_id="c20g", timeout=600)
